@@ -68,6 +68,10 @@ pub fn prehistories() -> Vec<Vec<Action>> {
 pub fn pre_of(prog: &Prog, pres: &[Vec<Action>], idx: usize) -> Vec<Action> {
     if idx == 3 {
         prehistory_eval_jump(prog)
+    } else if idx == 4 {
+        // the PC taken outside user space by an evaluated jump (x0100; for the program at x0000
+        // that is inside): `^offset` must still be measured from where the PC really is
+        vec![Action::of(Cmd::MoveReg(1, 0x0100)), Action::eval("jmp r1", Some(0xC040))]
     } else {
         pres[idx].clone()
     }
@@ -160,7 +164,7 @@ pub fn workload(tier: Tier, progs: &[Prog]) -> Vec<Work> {
         }
         offs.sort();
         offs.dedup();
-        for pre in 0..4 {
+        for pre in 0..5 {
             for o in &offs {
                 for label in ["first", "second", "data", "end"] {
                     let l = Loc::Label(label.to_string(), *o);
